@@ -22,6 +22,11 @@ def targets():
         t.update(extra.targets(SRC))
     except ImportError:
         pass
+    # further translators: tools/py2coq/extra_<name>.py, each exposing targets(SRC) -> {file: thunk}
+    import importlib
+    for p in sorted((Path(__file__).resolve().parent / "py2coq").glob("extra_*.py")):
+        mod = importlib.import_module("py2coq." + p.stem)
+        t.update(mod.targets(SRC))
     return t
 
 
